@@ -677,7 +677,10 @@ def cmd_selftest(a):
             ref = None
             procs = []
             for i in range(a.procs):
-                jp, out = b.job(world=w, property="", tier="selftest", seed=a.seed, **{"from": 0, "to": a.n})
+                kw = {"from": 0, "to": a.n}
+                if os.environ.get("VERIF_OVERRIDE"):
+                    kw["override"] = dict(kv.split("=", 1) for kv in os.environ["VERIF_OVERRIDE"].split(","))
+                jp, out = b.job(world=w, property="", tier="selftest", seed=a.seed, **kw)
                 env = dict(os.environ)
                 env.update(WORKER_ENV)
                 env["GOMAXPROCS"] = ["1", "4", "16"][i % 3]
